@@ -568,7 +568,7 @@ def run(ctx):
     inst = install_probes(ctx, holder)
     try:
         sequential(ctx, holder, ctx.scale(64, 6000), "w")
-        threaded(ctx, holder, ctx.scale(32, 2400), "w")
+        threaded(ctx, holder, ctx.scale(32, 1600), "w")
     finally:
         inst.remove()
 
